@@ -13,13 +13,18 @@ def handleFault (props : List String) (impl : Json) : R OpResult := do
     let err ← fBool impl "err"
     let ws ← (← fArrD impl "writes").mapM jstr
     let bws ← (← fArrD impl "baseWrites").mapM jstr
-    let kind := (hitS.splitOn " ").headD ""
-    let kindObj := String.intercalate " " ((hitS.splitOn " ").take 2)
+    let hitT := if hitS.startsWith "conflict:" then (hitS.drop 9).toString else hitS
+    let kind := (if hitS.startsWith "conflict:" then "conflict-" else "") ++ (hitT.splitOn " ").headD ""
+    let kindObj := (if hitS.startsWith "conflict:" then "conflict " else "") ++ String.intercalate " " ((hitT.splitOn " ").take 2)
+    let conflict := hitS.startsWith "conflict:"
     return { model := .null,
              holds := props.flatMap fun p =>
-               [(p ++ ".fault_no_panic", true),
-                (p ++ ".fault_reported", RV.Oracle.Fault.faultReported hit err),
-                (p ++ ".fault_writes_within", RV.Oracle.Fault.faultWritesWithin hit ws bws)],
+               [(p ++ ".fault_no_panic", true)] ++
+               (if conflict then
+                  [(p ++ ".conflict_reported_or_completed", RV.Oracle.Fault.conflictReportedOrCompleted hit err ws bws)]
+                else
+                  [(p ++ ".fault_reported", RV.Oracle.Fault.faultReported hit err),
+                   (p ++ ".fault_writes_within", RV.Oracle.Fault.faultWritesWithin hit ws bws)]),
              tags := ["fault", if hit then s!"fault:{kindObj}" else "fault:not-reached", s!"faultverb:{kind}"] ++ (if hit then [] else ["trivial"]) }
 
 end RV.Drv.Fault
